@@ -8,7 +8,8 @@ from ncclient.xml_ import BASE_NS_1_0
 def remove_namespaces(xml):
 
     for elem in xml.getiterator():
-        if elem.tag is etree.Comment:
+        if not isinstance(elem.tag, str):
+            # comments and processing instructions have no name
             continue
         i = elem.tag.find('}')
         if i > 0:
